@@ -9,6 +9,7 @@ package main
 
 import (
 	"bufio"
+	"bytes"
 	"encoding/json"
 	"fmt"
 	"os"
@@ -19,6 +20,7 @@ import (
 	"strconv"
 	"strings"
 	"sync"
+	"sync/atomic"
 	"time"
 
 	"verif/ev"
@@ -41,6 +43,7 @@ type scenResult struct {
 	Schedule    []int   `json:"schedule,omitempty"`
 	HarnessErr  string  `json:"harness_error,omitempty"`
 	SampleSched []int   `json:"sample_schedule,omitempty"`
+	Diverged    int64   `json:"diverged,omitempty"`
 	WallS       float64 `json:"wall_s"`
 }
 
@@ -85,6 +88,11 @@ func allScenarios(tier string) []scenario {
 	return out
 }
 
+// progress counts completed executions of this worker process; the watchdog in worker() ends the process
+// when a single execution does not complete for two minutes (a thread spinning or sleeping outside the
+// scheduler's control): the orchestrator then reports the schedules as not explored instead of hanging.
+var progress int64
+
 func exploreScenario(idx int, sc scenario, deadline time.Time) scenResult {
 	res := scenResult{Index: idx, Name: sc.Name, Family: sc.Family}
 	start := time.Now()
@@ -106,6 +114,15 @@ func exploreScenario(idx int, sc scenario, deadline time.Time) scenResult {
 		var vsched []int
 		outcomes = map[string]bool{}
 		st := rtExplore(bound, stop, func() func() { cur = sc.Mk(); return cur.Body }, func(x *execT, schedule []int) bool {
+			atomic.AddInt64(&progress, 1)
+			if sc.Fine && x != nil && x.Diverged != "" {
+				// In the fine-grained family the scheduling points lie INSIDE the library; where the library
+				// iterates over a Go map the number of points before an early exit depends on the (randomised)
+				// iteration order, so a recorded prefix may not be replayable. That is nondeterminism of the
+				// language the explorer cannot own: the execution is counted and skipped, never judged.
+				res.Diverged++
+				return true
+			}
 			v := cur.Oracle(x)
 			if v.Msg != "" {
 				viol, vsched = &v, append([]int{}, schedule...)
@@ -122,12 +139,26 @@ func exploreScenario(idx int, sc scenario, deadline time.Time) scenResult {
 		if viol != nil {
 			res.Msg, res.Sig, res.Schedule = viol.Msg, viol.Sig, vsched
 			// five-fold replay of the recorded schedule on fresh instances
+			same, other := 0, ""
 			for k := 0; k < 5; k++ {
 				inst := sc.Mk()
 				x := rtRun(vsched, inst.Body)
-				if v := inst.Oracle(x); v.Sig != viol.Sig {
-					res.HarnessErr = fmt.Sprintf("schedule %v gave %q first and %q on replay %d", vsched, viol.Sig, v.Sig, k)
+				if v := inst.Oracle(x); v.Sig == viol.Sig {
+					same++
+				} else {
+					other = fmt.Sprintf("schedule %v gave %q first and %q on replay %d", vsched, viol.Sig, v.Sig, k)
 				}
+			}
+			switch {
+			case same == 5:
+			case !sc.Fine:
+				res.HarnessErr = other
+			case same > 0:
+				res.Msg += fmt.Sprintf(" (intermittent: reproduced in %d of 5 replays of the schedule; library-internal scheduling points depend on map iteration order)", same)
+			default:
+				// fine-grained family only: a candidate that never reproduces is not reported and not fatal
+				res.Cut = "a violation candidate (" + viol.Sig + ") did not reproduce in 5 replays of its schedule and was dropped: " + other
+				res.Msg, res.Sig, res.Schedule = "", "", nil
 			}
 			break
 		}
@@ -146,6 +177,18 @@ func exploreScenario(idx int, sc scenario, deadline time.Time) scenResult {
 }
 
 func worker(spec string, tier string) {
+	go func() {
+		last, since := int64(-1), time.Now()
+		for {
+			time.Sleep(5 * time.Second)
+			if p := atomic.LoadInt64(&progress); p != last {
+				last, since = p, time.Now()
+			} else if time.Since(since) > 2*time.Minute {
+				fmt.Fprintln(os.Stderr, "watchdog: one execution made no progress for two minutes - all goroutines are asleep or spinning outside the scheduler")
+				os.Exit(3)
+			}
+		}
+	}()
 	parts := strings.Split(spec, "/")
 	i, _ := strconv.Atoi(parts[0])
 	n, _ := strconv.Atoi(parts[1])
@@ -278,13 +321,21 @@ func main() {
 	var mu sync.Mutex
 	var results []scenResult
 	var wg sync.WaitGroup
+	noExplore := os.Getenv("VERIF_C15_NOEXPLORE")
+	if noExplore != "" {
+		n = 0
+		c.Cut("NO SCHEDULE WAS EXPLORED: " + noExplore + " - the library under test uses a construct the scheduler overlay cannot lower; only the free-running pass (race detector + oracles, not exhaustive) was run")
+	}
+	var unexplorable []string
+	var diverged int64
 	for i := 0; i < n; i++ {
 		wg.Add(1)
 		go func(i int) {
 			defer wg.Done()
 			cmd := exec.Command(self, "-worker", fmt.Sprintf("%d/%d", i, n), tier)
 			cmd.Env = append(os.Environ(), "GOMAXPROCS=1", fmt.Sprintf("VERIF_BUDGET_S=%d", int(time.Until(c.Deadline).Seconds())))
-			cmd.Stderr = os.Stderr
+			var errBuf bytes.Buffer
+			cmd.Stderr = &errBuf
 			out, err := cmd.StdoutPipe()
 			if err != nil {
 				ev.Harness("C15", "cannot start worker: %v", err)
@@ -303,14 +354,27 @@ func main() {
 				}
 			}
 			if err := cmd.Wait(); err != nil {
+				if strings.Contains(errBuf.String(), "all goroutines are asleep") {
+					// a thread blocked in a primitive the scheduler does not control (a channel of the standard
+					// library, a timer): a limit of the explorer, not a verdict about the tree under test
+					mu.Lock()
+					unexplorable = append(unexplorable, fmt.Sprintf("worker %d stopped: a thread blocked outside the scheduler's control", i))
+					mu.Unlock()
+					return
+				}
+				os.Stderr.Write(errBuf.Bytes())
 				ev.Harness("C15", "worker %d failed: %v", i, err)
 			}
+			os.Stderr.Write(errBuf.Bytes())
 		}(i)
 	}
 	wg.Wait()
 	sort.Slice(results, func(a, b int) bool { return results[a].Index < results[b].Index })
 	total := len(allScenarios(tier))
-	if len(results) != total {
+	for _, u := range unexplorable {
+		c.Cut("SCHEDULES NOT EXPLORED: " + u)
+	}
+	if len(results) != total && noExplore == "" && len(unexplorable) == 0 {
 		ev.Harness("C15", "workers reported %d of %d scenarios", len(results), total)
 	}
 	fam := map[string]map[string]int64{}
@@ -330,6 +394,10 @@ func main() {
 		}
 		f["scenarios"]++
 		f["executions"] += r.Executions
+		if r.Diverged > 0 {
+			f["executions_not_replayable_(map_iteration_order_inside_the_library)"] += r.Diverged
+			diverged += r.Diverged
+		}
 		if r.Complete {
 			f["scenarios_with_all_interleavings_explored"]++
 		}
@@ -354,6 +422,9 @@ func main() {
 			c.Violate(ev.Violation{Sig: r.Sig, Msg: fmt.Sprintf("[%s] schedule %v: %s", r.Name, r.Schedule, r.Msg),
 				Witness: map[string]interface{}{"scenario": r.Name, "schedule": r.Schedule, "tier": tier}}, nil)
 		}
+	}
+	if diverged > 0 {
+		c.Cut(fmt.Sprintf("%d executions of the fine-grained family could not be replayed: the number of library-internal scheduling points depended on Go's randomised map iteration order; they were skipped, not judged", diverged))
 	}
 	c.Set("async_scenarios", asyncTable)
 	c.Set("families", fam)
